@@ -260,4 +260,10 @@ def passesUntyped (v : Sc) (t : Ty) : Bool :=
    | .instance _ | .cimClass => t == .char16
    | _ => true)
 
+/-- class invariant of the CIMInt objects offered as *input* (they came out of the constructor, see
+    `C06_int_in_range`): the value is within the limits of the class -/
+def scInv : Sc → Bool
+  | .cimInt t v => decide (t.lo ≤ v) && decide (v ≤ t.hi)
+  | _ => true
+
 end Pywbem.Model.CimValue
